@@ -284,6 +284,20 @@ func c18Execute(c *h.Ctx, id string, cs c18Case, schedSeed int64, profile string
 				return nil
 			}
 		}
+		// ---- late copies of advertisements already applied must not move the fixed point: at the
+		// fixed point sequence numbers no longer change, so no later fetch would repair a roll-back
+		before := advSig(s.adverts())
+		nLate, ok := s.replayLate(r)
+		if !ok {
+			c.Inconclusive(s.bad)
+			return nil
+		}
+		c.Count("late_advertisements_replayed", int64(nLate))
+		if after := advSig(s.adverts()); after != before {
+			c.Violation("C18:late-advertisement-moves-fixed-point:"+f.Kind, id, fmt.Sprintf("%s: delivering late copies of advertisement Data that had already been delivered (superseded or current sequence numbers) changed the routers' tables at the fixed point", phase),
+				det(map[string]any{"adverts_before": before, "adverts_after": after}))
+			return nil
+		}
 		sort.Strings(nh)
 		fixed = append(fixed, fmt.Sprint(nh))
 		c.Distinct(fmt.Sprintf("n=%d|edges=%d|phase=%s|components=%d|profile=%s", cs.n, len(s.adj), f.Kind, s.components(), profile))
